@@ -222,7 +222,7 @@ fn cents_str(c: i64) -> String {
     format!("{}.{:02}", c / 100, c % 100)
 }
 
-/// One input in 120 is LARGE: a security with several hundred rows next to a dozen one-row
+/// One input in 80 is LARGE: a security with several hundred rows next to a dozen one-row
 /// securities (anything that only happens above a size threshold - batching, a worker pool - is
 /// out of reach of the ordinary inputs).
 fn generate_large(r: &mut Rng, k_seeds: usize) -> Sc {
@@ -262,8 +262,45 @@ fn generate_large(r: &mut Rng, k_seeds: usize) -> Sc {
     for _ in 0..k_seeds {
         hash_seeds.push(r.next_u64());
     }
+    let variant = r.below(3);
+    let mut files = vec![];
+    match variant {
+        0 => files.push(CsvFile { name: "big.csv".to_string(), extra_cols: vec![], rows, layout_seed: 0, crlf: false, bom: false }),
+        1 => {
+            // two big files (each well over 32 KiB) holding the halves of the history, affiliates named
+            // in every row - the end-to-end lane spells them differently from row to row and file to file
+            let mut more = vec![];
+            let mut day2 = d(2020, 1, 2);
+            for i in 0..r.range(700, 900) {
+                day2 += Duration::days(r.range(0, 1));
+                let mut row = mk(if i % 3 == 0 { "BBB" } else { "AAA" }, day2, "Buy", r.range(1, 20) * 1000, r.range(900, 1500));
+                row[C_MEMO] = "second export, long enough a memo to make the file big".to_string();
+                more.push(row);
+            }
+            for (i, row) in rows.iter_mut().chain(more.iter_mut()).enumerate() {
+                row[C_AFF] = (*["Spouse", "Kid", "Trust", "Default"].get(i % 4).unwrap()).to_string();
+                if row[C_MEMO].is_empty() {
+                    row[C_MEMO] = "first export, long enough a memo to make the file big".to_string();
+                }
+            }
+            files.push(CsvFile { name: "big1.csv".to_string(), extra_cols: vec![], rows, layout_seed: 0, crlf: false, bom: false });
+            files.push(CsvFile { name: "big2.csv".to_string(), extra_cols: vec![], rows: more, layout_seed: 0, crlf: false, bom: false });
+        }
+        _ => {
+            // seventy affiliates, each with two purchases (the end-to-end lane spells the second one differently)
+            let mut many = vec![];
+            for a in 0..70 {
+                for k in 0..2 {
+                    let mut row = mk("AAA", d(2019, 1, 2) + Duration::days(a * 2 + k), "Buy", 1000 * (a + 1), 1000 + a);
+                    row[C_AFF] = format!("Acct{:02}", a);
+                    many.push(row);
+                }
+            }
+            files.push(CsvFile { name: "accounts.csv".to_string(), extra_cols: vec![], rows: many, layout_seed: 0, crlf: false, bom: false });
+        }
+    }
     Sc {
-        files: vec![CsvFile { name: "big.csv".to_string(), extra_cols: vec![], rows, layout_seed: 0, crlf: false, bom: false }],
+        files,
         modes: vec![Mode::Text, Mode::TotalCostsCsvDir, Mode::Summary],
         symbol_base: vec![],
         summarize_before: d(2019, 6, 1).to_string(),
@@ -271,15 +308,15 @@ fn generate_large(r: &mut Rng, k_seeds: usize) -> Sc {
         hash_seeds,
         max_read: usize::MAX,
         fx: None,
-        e2e: r.chance(1, 4),
-        e2e_affiliate_spellings: false,
+        e2e: variant != 0 || r.chance(1, 4),
+        e2e_affiliate_spellings: variant != 0,
         e2e_verbose: false,
     }
 }
 
 pub fn generate(seed: u64, k_seeds: usize) -> Sc {
     let mut r = Rng::new(seed);
-    if r.chance(1, 120) {
+    if r.chance(1, 80) {
         return generate_large(&mut r, k_seeds);
     }
     // mostly 1-4 securities; sometimes many (6-10), most of them tiny and error-prone
